@@ -270,10 +270,6 @@ PROPOSED_KNOWN = [
     {"id": "F24-mem", "property": "C19", "monitor": "referrers-switch-only-referrers:mem", "cause": "restart:referrers-on->off:mem",
      "witness": "NEW push=t del=t bdel=t ref=t ro=f store=mem seedref=t ; REOPEN f ; P mget",
      "what": "the same directory opened by the memory store with the referrers API off: every request to the repository is answered 500"},
-    {"id": "F26a", "property": "C19", "monitor": "sigterm-stops-server:early", "cause": "shutdown-before-run-published",
-     "witness": "LC early 0",
-     "what": "Shutdown called before Run has published s.httpServer returns 'server is not running'; serve.go then cancels and closes "
-             "cleanShutdown, Run starts listening afterwards and nothing stops the server (no goroutine waits for a signal any more)"},
 ]
 
 
